@@ -10,7 +10,7 @@
  "models": ["models/http_string.c", "models/http_env.c"],
  "expect_loops": ["strcmp"],
  "timeout": 600,
- "assumptions": ["header array <= FH_MAXH entries, each name an exact-size object of <= FH_MAXS bytes (object sizes only; the search loop is closed by a loop contract)",
+ "assumptions": ["header array <= FH_MAXH entries, each name ends exactly at the end of its heap object (FH_MAXS bytes, string at a symbolic offset) (object sizes only; the search loop is closed by a loop contract)",
    "strcmp: models/http_string.c (loop-contracted executable model)"]
 }
 */
@@ -25,16 +25,23 @@
 #include "http/http.c"
 #include "http_h.h"
 
+/*
+ * a string of any length 0 .. FH_MAXS-1 whose terminator is the LAST byte of its heap object (an over-read past the
+ * terminator leaves the object).  The object has constant size and the string starts at a symbolic offset: objects
+ * of symbolic size make cbmc's array encoding explode under the quantified string-model invariants.
+ */
 static char *
 h_str(void)
 {
-	size_t n = nondet_size_t();
+	size_t off = nondet_size_t(), k;
 	char * s;
 
-	__CPROVER_assume(n >= 1 && n <= FH_MAXS);
-	s = h_obj(n);
-	__CPROVER_assume(s[n - 1] == '\0');
-	return (s);
+	__CPROVER_assume(off < FH_MAXS);
+	s = h_obj(FH_MAXS);
+	for (k = 0; k < FH_MAXS - 1; k++)
+		__CPROVER_assume(k < off || s[k] != '\0');
+	__CPROVER_assume(s[FH_MAXS - 1] == '\0');
+	return (s + off);
 }
 
 void
